@@ -97,9 +97,9 @@ def main():
         "setup_cmd": "./vf setup",
         "hooks": {
             "guard": "IODINE_VERIF",
-            "enable": "every check copies /repo/src to a scratch directory and compiles it with -DIODINE_VERIF -fsanitize=address,undefined -fno-sanitize-recover=all (the sources contain no guarded code: observability comes from link-time --wrap of libc calls, the global users[] table and #include of the .c files)",
+            "enable": "every check copies /repo/src to a scratch directory and compiles it with -DIODINE_VERIF -fsanitize=address,undefined -fno-sanitize-recover=all. One guarded hook exists: iodine_verif_client_state() at the end of src/client.c (read-only copy of inpkt/outpkt/query ids/connection type), called by the simulated-OS shim at every select() of the client. Everything else is observed without source changes: link-time --wrap of libc calls, the global users[] table and #include of the .c files",
             "baseline_off_cmd": "./vf baseline-off",
-            "source_commits": [],
+            "source_commits": ["8286883"],
             "add_only": True,
         },
         "engines": [
